@@ -201,8 +201,8 @@ class YAMLFormatter(GraphtageFormatter):
         This is a fallback to permit the printing of custom containers, like :class:`graphtage.xml.XMLElement`.
 
         """
-        # Treat the container like a list
-        list_node = ListNode(node.children())
+        # Treat the container like a list (of copies, because the children already have a parent)
+        list_node = ListNode((c.copy() for c in node.children()))
         self.print(printer, list_node)
 
 
